@@ -197,7 +197,7 @@ def check_abort_no_retry(
     if abort_if is None:
         return False
     try:
-        aborted = abort_if()
+        aborted = bool(abort_if())
     except BaseException:
         record_cancel(ctx)
         raise
